@@ -29,7 +29,7 @@ RULE = (
 ASSUMPTIONS = c02.ASSUMPTIONS + ["twin outputs are compared to each other (rounding-level tolerance), the reference comparison is C01..C05's job"]
 BUDGET = {
     "quick": {"shards": 16, "examples": 10, "wall": 120, "api_examples": 40, "cpp_examples": 2},
-    "thorough": {"shards": 16, "examples": 350, "wall": 1200, "api_examples": 3000, "cpp_examples": 30},
+    "thorough": {"shards": 16, "examples": 3500, "wall": 900, "api_examples": 30000, "cpp_examples": 300},
 }
 
 
